@@ -16,6 +16,7 @@ ORACLE = ('reference monitor with three flags per trap (enabled, stopped, pendin
           're-arms it; an occurrence while OFF is lost')
 BOUNDS = {'programs': 'one template: three PEN ON/OFF/STOP commands (every combination), a trapped error '
                       'with RESUME NEXT, a handler of three statements',
+          'second template': 'an error inside the trap routine whose handler leaves the routine with RETURN <line> before RESUME, two symbolic occurrence bits',
           'schedule': 'six possible occurrence points (after the statements T%=Xi%: in the main line, inside '
                       'the trap handler, inside the error handler, after the error), each taken or not by a '
                       'symbolic bit: all 64 schedules x 27 command combinations',
@@ -125,6 +126,59 @@ def body(h):
     return [P, Q, M]
 
 
+ERR_RETURN_PROG = [
+    b'10 ON PEN GOSUB 100: ON ERROR GOTO 300: PEN ON',
+    b'20 T%=X1%: M%=M%+1: M%=M%+1: GOTO 400',
+    b'100 P%=P%+1: O%=O%*4+1: IF P%=1 THEN ERROR 9',
+    b'110 Q%=Q%+1: RETURN',
+    # the error handler leaves the trap routine with RETURN <line> and only then RESUMEs
+    b'300 E%=E%+1: RETURN 310',
+    b'310 T%=X2%: O%=O%*4+2: O%=O%*4+2: RESUME 400',
+    b'400 O%=O%*4+3: M%=M%+1: M%=M%+1: END',
+]
+
+
+def body_error_return(h):
+    """an occurrence while an error handler is active is deferred until RESUME, also when the handler
+    has already left the trap routine it was entered from with RETURN"""
+    names = [b'T%', b'M%', b'P%', b'Q%', b'E%', b'O%', b'X1%', b'X2%']
+    impl = _setup(h, ERR_RETURN_PROG, names)
+    S = h.P.basic.base.signals._module()
+    X = [None]
+    for i in (1, 2):
+        raw = h.bytes('x%d' % i, 2)
+        h.assume(s_and(raw[1] == 0, raw[0] <= 1))
+        session.poke_int(h, impl, b'X%d%%' % i, raw)
+        X.append(raw[0] != 0)
+    orig = impl.queues.check_events
+    tvar = impl.scalars._vars[b'T%']
+
+    def check_events():
+        if tvar[0] != 0:
+            tvar[0] = 0
+            impl.queues.inputs.put(S.Event(S.PEN_DOWN, (1, 1)))
+        return orig()
+    impl.queues.check_events = check_events
+    impl.execute(b'GOTO 10')
+    P, Q, M, E, O = [_geti(impl, n) for n in (b'P%', b'Q%', b'M%', b'E%', b'O%')]
+    x1, x2 = bool(X[1]), bool(X[2])
+    if not x1:
+        want = (0, 0, 0, [3])
+    elif not x2:
+        want = (1, 0, 1, [1, 2, 2, 3])
+    else:
+        # the second occurrence waits for RESUME; its routine then runs before line 400 goes on
+        want = (2, 1, 1, [1, 2, 2, 1, 3])
+    order = 0
+    for d in want[3]:
+        order = order * 4 + d
+    h.require('handler-entries-and-completions', s_and(P == want[0], Q == want[1], E == want[2]), [P, Q, E])
+    h.require('order-of-events', O == order, [O, order])
+    # (RESUME 400 skips the rest of line 20 when the first trap was taken)
+    h.require('main-program-statements', M == (2 if x1 else 4), M)
+    return [P, Q, E, O]
+
+
 def cases(tier):
     return [Case('pen-trap-c%d' % c0, body, params={'c0': c0}, timeout_s=3000, max_paths=400000)
-            for c0 in (0, 1, 2)]
+            for c0 in (0, 1, 2)] + [Case('error-handler-returns-from-trap', body_error_return, timeout_s=900)]
